@@ -368,7 +368,6 @@ func Carriers(p *core.Program, fn *core.FuncRef) []*Carrier {
 	return out
 }
 
-
 // ---------------------------------------------------------------------------
 // ERR6b: messages that may carry an error must not be discarded unread
 
